@@ -28,13 +28,16 @@ import (
 type C17BCase struct {
 	Rules []string `json:"rules"` // '-' prefix = exclusion; in the order given on the command line
 	Hosts []string `json:"hosts"`
+	// Localhost: value of --proxy-localhost ("" = not given, the default denies). The list decides for every host, this
+	// machine's own names included, whatever that setting allows.
+	Localhost string `json:"localhost,omitempty"`
 }
 
 var (
-	c17bIncl  = []string{`\.corp\.c17\.test$`, `^intranet\.c17\.test$`, `(?i)^shop\.`, `^[a-z]{2,4}\.c17\.test$`, `c17deny`}
-	c17bExcl  = []string{`-^vpn\.corp\.c17\.test$`, `-(?i)^open\.`, `-\.pub\.corp\.c17\.test$`, `-^ab\.c17\.test$`}
+	c17bIncl  = []string{`\.corp\.c17\.test$`, `^intranet\.c17\.test$`, `(?i)^shop\.`, `^[a-z]{2,4}\.c17\.test$`, `c17deny`, `^127\.`, `(?i)^localhost$`}
+	c17bExcl  = []string{`-^vpn\.corp\.c17\.test$`, `-(?i)^open\.`, `-\.pub\.corp\.c17\.test$`, `-^ab\.c17\.test$`, `-^127\.0\.0\.9$`}
 	c17bHosts = []string{"www.corp.c17.test", "vpn.corp.c17.test", "a.pub.corp.c17.test", "intranet.c17.test", "xintranet.c17.test", "shop.c17.test", "SHOP.c17.test", "open.corp.c17.test",
-		"ab.c17.test", "abcd.c17.test", "abcde.c17.test", "www.other.test", "c17deny.other.test", "10.9.8.7", "corp.c17.test.evil.test"}
+		"ab.c17.test", "abcd.c17.test", "abcde.c17.test", "www.other.test", "c17deny.other.test", "10.9.8.7", "corp.c17.test.evil.test", "127.0.0.1", "127.0.0.9", "localhost", "LOCALHOST"}
 )
 
 func genC17B(t *rapid.T) C17BCase {
@@ -48,6 +51,26 @@ func genC17B(t *rapid.T) C17BCase {
 		rapid.SliceOfNDistinct(rapid.SampledFrom(c17bExcl), ne, ne, rapid.ID[string]).Draw(t, "excl")...)
 	c.Rules = rapid.Permutation(rules).Draw(t, "order")
 	c.Hosts = rapid.SliceOfNDistinct(rapid.SampledFrom(c17bHosts), 3, 6, rapid.ID[string]).Draw(t, "hosts")
+	c.Localhost = rapid.SampledFrom([]string{"", "allow", "direct", "deny", "allow"}).Draw(t, "localhost")
+	if (c.Localhost == "allow" || c.Localhost == "direct") && rapid.IntRange(0, 2).Draw(t, "aimlocal") != 0 {
+		// aimed at the place where the two settings meet: a list that names this machine, and a request for it
+		has := func(list []string, any ...string) bool {
+			for _, x := range list {
+				for _, a := range any {
+					if x == a {
+						return true
+					}
+				}
+			}
+			return false
+		}
+		if !has(c.Rules, `^127\.`, `(?i)^localhost$`) {
+			c.Rules = append(c.Rules, rapid.SampledFrom([]string{`^127\.`, `(?i)^localhost$`}).Draw(t, "localrule"))
+		}
+		if !has(c.Hosts, "127.0.0.1", "127.0.0.9", "localhost", "LOCALHOST") {
+			c.Hosts = append(c.Hosts, rapid.SampledFrom([]string{"127.0.0.1", "localhost", "LOCALHOST", "127.0.0.9"}).Draw(t, "localhostname"))
+		}
+	}
 	return c
 }
 
@@ -69,6 +92,9 @@ func runC17B(c C17BCase) (fails []vstat.Failure) {
 	proxyAddr := FreeAddr("127.0.0.1")
 	args := []string{"run", "--address=" + proxyAddr, "--api-address=" + FreeAddr("127.0.0.1"), "--log-level=error", "--shutdown-timeout=1s", "--http-dial-attempts=1", "--http-dial-timeout=1s",
 		"--deny-domains=" + strings.TrimSuffix(sb.String(), "\n")}
+	if c.Localhost != "" {
+		args = append(args, "--proxy-localhost="+c.Localhost)
+	}
 	cmd := exec.Command(bin, args...)
 	var output lockedBuf
 	cmd.Stdout, cmd.Stderr = &output, &output
@@ -125,6 +151,10 @@ func runC17B(c C17BCase) (fails []vstat.Failure) {
 			}
 		}
 		want := inc && !exc
+		isLocal := strings.EqualFold(h, "localhost") || strings.HasPrefix(h, "127.")
+		if isLocal && (c.Localhost == "" || c.Localhost == "deny") {
+			want = true // refused as this machine's own name, listed or not
+		}
 		tc, err := Dial(proxyAddr)
 		if err != nil {
 			st.Inconclusive()
@@ -139,7 +169,7 @@ func runC17B(c C17BCase) (fails []vstat.Failure) {
 			break
 		}
 		if got := m.Status == 403; got != want {
-			fails = append(fails, vstat.Failf("C17:binary:verdict", "--deny-domains %q: request for %q answered %d; each rule on its own: include matches %v, exclusion matches %v, so denied = %v", c.Rules, h, m.Status, inc, exc, want))
+			fails = append(fails, vstat.Failf("C17:binary:verdict", "--deny-domains %q: request for %q answered %d (--proxy-localhost=%q); each rule on its own: include matches %v, exclusion matches %v, so denied = %v", c.Rules, h, m.Status, c.Localhost, inc, exc, want))
 			break
 		}
 	}
@@ -151,6 +181,14 @@ var propC17B = vstat.Prop[C17BCase]{Name: "TestC17Binary", Gen: genC17B, Run: ru
 		cls := []string{fmt.Sprintf("rules=%d", len(c.Rules))}
 		if len(c.Rules) > 0 && strings.HasPrefix(c.Rules[0], "-") {
 			cls = append(cls, "exclusion-listed-first")
+		}
+		if c.Localhost == "allow" || c.Localhost == "direct" {
+			for _, h := range c.Hosts {
+				if strings.EqualFold(h, "localhost") || strings.HasPrefix(h, "127.") {
+					cls = append(cls, "local-host-asked-with-proxy-localhost-"+c.Localhost)
+					break
+				}
+			}
 		}
 		return len(c.Rules) >= 2, fmt.Sprintf("%+v", c), cls
 	}}
